@@ -66,6 +66,33 @@ impl Fp {
     }
 }
 
+/// Deterministic generator (fixed seeds, Knuth's MMIX LCG) for the listed irregular families:
+/// the same family in every process and every run - nothing is sampled at run time.
+struct Lcg(u64);
+impl Lcg {
+    fn next(&mut self) -> u64 {
+        self.0 = self.0.wrapping_mul(6364136223846793005).wrapping_add(1442695040888963407);
+        self.0 >> 33
+    }
+    fn below(&mut self, n: usize) -> usize {
+        (self.next() % n as u64) as usize
+    }
+    fn shuffle<T>(&mut self, v: &mut [T]) {
+        for i in (1..v.len()).rev() {
+            let j = self.below(i + 1);
+            v.swap(i, j);
+        }
+    }
+    /// k distinct ids of `universe`, ascending
+    fn draw(&mut self, universe: &[u32], k: usize) -> Vec<u32> {
+        let mut u = universe.to_vec();
+        self.shuffle(&mut u);
+        u.truncate(k);
+        u.sort_unstable();
+        u
+    }
+}
+
 // ------------------------------------------------------------------------------------------
 // observation of one group
 // ------------------------------------------------------------------------------------------
@@ -353,6 +380,34 @@ impl<'p> Live<'p> {
             return Err(self.fail(("HpoGroup::insert".into(), SIG_INSERT_RET.into(), format!("insert({x}) returned {ret}, expected {fresh}"))));
         }
         self.check("HpoGroup::insert")
+    }
+
+    /// Insert with the cheap per-step checks only (return value, len, contains and get of the inserted id);
+    /// used between the fully observed prefixes of long runs.
+    fn insert_quiet(&mut self, x: u32) -> Result<(), Viol> {
+        self.ops.push(Op::Insert(x));
+        at("HpoGroup::insert");
+        let ret = if self.ops.len() % 2 == 0 { self.g.insert(x) } else { self.g.insert(tid(x)) };
+        let fresh = self.model.insert(x);
+        if ret != fresh {
+            return Err(self.fail(("HpoGroup::insert".into(), SIG_INSERT_RET.into(), format!("insert({x}) returned {ret}, expected {fresh}"))));
+        }
+        at("HpoGroup::len");
+        let len = self.g.len();
+        if len != self.model.len() {
+            return Err(self.fail(("HpoGroup::len".into(), "differs from the number of distinct ids".into(), format!("len() = {len} after insert({x}), expected {}", self.model.len()))));
+        }
+        at("HpoGroup::contains");
+        if !self.g.contains(&tid(x)) {
+            return Err(self.fail(("HpoGroup::contains".into(), "membership disagrees with the set of inserted ids".into(), format!("contains({x}) = false directly after insert({x})"))));
+        }
+        let rank = self.model.range(..x).count();
+        at("HpoGroup::get");
+        let got = self.g.get(rank).map(|i| i.as_u32());
+        if got != Some(x) {
+            return Err(self.fail(("HpoGroup::get".into(), "get(i) is not the i-th smallest id, or get(len) is not None".into(), format!("after insert({x}): get({rank}) = {got:?}, expected Some({x})"))));
+        }
+        Ok(())
     }
 
     fn clear(&mut self) -> Result<(), Viol> {
@@ -706,11 +761,125 @@ fn inline_limit(ctx: &mut Ctx) {
     }
 }
 
+/// Long insertion runs: the group is inserted into (not only read) far beyond 64 / 130 ids.
+fn large_live(ctx: &mut Ctx) {
+    const KINDS: [&str; 4] = ["descending", "even-then-odd", "outside-in", "shuffled (LCG seed 12)"];
+    ctx.space(
+        "histories/large-live",
+        &format!("insertion of n = 300 and n = 1000 ids 7 + 3i in the orders {KINDS:?} into HpoGroup::new(): insert's return, len, contains and get of the inserted id at EVERY step; full observation (iter, into_iter, get(0..=len), contains for all n ids + the gaps, as_bytes, iterator adaptors) at the prefixes 0..=8, 29..=33, 62..=66, 126..=131, 254..=259, 510..=514, every 100th and the last; then every 7th member re-inserted"),
+    );
+    for n in [300usize, 1000] {
+        for kind in 0..KINDS.len() {
+            if !ctx.take() {
+                continue;
+            }
+            let mut idx: Vec<usize> = match kind {
+                0 => order(1, n),
+                1 => order(3, n),
+                2 => order(2, n),
+                _ => (0..n).collect(),
+            };
+            if kind == 3 {
+                Lcg(12).shuffle(&mut idx);
+            }
+            let seq: Vec<u32> = idx.iter().map(|i| 7 + 3 * *i as u32).collect();
+            let mut probes: Vec<u32> = (0..n as u32).flat_map(|i| [7 + 3 * i, 8 + 3 * i]).collect();
+            probes.extend([0, 6, u32::MAX]);
+            probes.sort_unstable();
+            let full = |k: usize| k <= 8 || (29..=33).contains(&k) || (62..=66).contains(&k) || (126..=131).contains(&k) || (254..=259).contains(&k) || (510..=514).contains(&k) || k % 100 == 0 || k == n;
+            ctx.state();
+            ctx.nontrivial();
+            ctx.exec();
+            ctx.validated();
+            ctx.transitions((n + n / 7) as u64);
+            let r = guard(|| -> Result<u64, Viol> {
+                let mut l = Live::start(0, &probes)?;
+                for (k, x) in seq.iter().enumerate() {
+                    if full(k + 1) {
+                        l.insert(*x)?;
+                    } else {
+                        l.insert_quiet(*x)?;
+                    }
+                }
+                for x in seq.iter().step_by(7) {
+                    l.insert_quiet(*x)?;
+                }
+                l.check("HpoGroup::insert")?;
+                Ok(l.observations)
+            });
+            match r {
+                Ok(Ok(obs)) => ctx.bump("step_observations", obs),
+                Ok(Err(v)) => ctx.violation(&v.0, &v.1, v.2),
+                Err(msg) => {
+                    let v = panic_viol(msg, json!({"order": KINDS[kind], "ids": "7 + 3i", "n": n, "sequence_head": &seq[..8]}));
+                    ctx.violation(&v.0, &v.1, v.2);
+                }
+            }
+            let mut fp = Fp::new();
+            fp.u((n * 10 + kind) as u32);
+            ctx.outcome(fp.0);
+            ctx.sample(|| json!({"n": n, "order": KINDS[kind], "first_ids": &seq[..6]}));
+        }
+    }
+}
+
 // ------------------------------------------------------------------------------------------
 // constructors
 // ------------------------------------------------------------------------------------------
 
-const CONSTRUCTORS: [&str; 5] = ["HpoGroup::from(Vec<HpoTermId>)", "HpoGroup::from(Vec<u32>)", "HpoGroup::from(HashSet<HpoTermId>)", "HpoGroup::from_iter(HpoTermId)", "HpoGroup::from_iter(HpoTerm)"];
+/// 0..=3 take ids, 4 takes terms; 5..=8 / 9..=12 feed FromIterator through iterators whose size_hint is not exact
+const CONSTRUCTORS: [&str; 13] = [
+    "HpoGroup::from(Vec<HpoTermId>)",
+    "HpoGroup::from(Vec<u32>)",
+    "HpoGroup::from(HashSet<HpoTermId>)",
+    "HpoGroup::from_iter(HpoTermId)",
+    "HpoGroup::from_iter(HpoTerm)",
+    "HpoGroup::from_iter(HpoTermId) over filter()",
+    "HpoGroup::from_iter(HpoTermId) over flatten()",
+    "HpoGroup::from_iter(HpoTermId) over iter::from_fn()",
+    "HpoGroup::from_iter(HpoTermId) over chain()",
+    "HpoGroup::from_iter(HpoTerm) over filter()",
+    "HpoGroup::from_iter(HpoTerm) over flatten()",
+    "HpoGroup::from_iter(HpoTerm) over iter::from_fn()",
+    "HpoGroup::from_iter(HpoTerm) over chain()",
+];
+/// the iterator shapes of constructors 5..=8 and 9..=12 as Rust source after `<vec>.into_iter()<map>`
+const ADAPTOR_SRC: [&str; 4] = [".filter(|_| true)", " /* as Vec<Vec<_>> of chunks of 2 */ .flatten()", " /* pulled through std::iter::from_fn */", " /* first half .chain(second half) */"];
+
+/// The constructors that apply: the four id constructors, the term constructor if an ontology holds the
+/// ids, and (if asked for) the adaptor-fed variants of both FromIterator impls.
+fn constructors_for(ont: bool, adaptors: bool) -> Vec<usize> {
+    let mut v = vec![0, 1, 2, 3];
+    if ont {
+        v.push(4);
+    }
+    if adaptors {
+        v.extend(5..=8);
+        if ont {
+            v.extend(9..=12);
+        }
+    }
+    v
+}
+
+/// Collect `items` into a group through an iterator of the given shape (0 filter, 1 flatten, 2 from_fn, 3 chain).
+fn collect_through<T: Clone>(items: Vec<T>, shape: usize) -> HpoGroup
+where
+    HpoGroup: FromIterator<T>,
+{
+    match shape {
+        0 => items.into_iter().filter(|_| true).collect(),
+        1 => items.chunks(2).map(|c| c.to_vec()).collect::<Vec<Vec<T>>>().into_iter().flatten().collect(),
+        2 => {
+            let mut it = items.into_iter();
+            std::iter::from_fn(move || it.next()).collect()
+        }
+        _ => {
+            let (l, r) = items.split_at(items.len() / 2);
+            l.iter().cloned().chain(r.iter().cloned()).collect()
+        }
+    }
+}
 
 fn isolated_ontology(ids: &[u32]) -> Ontology {
     let f = Facts { terms: ids.iter().map(|i| Facts::term(*i, &format!("T{i}"))).collect(), edges: vec![], anns: vec![], version: (0, 0, 0) };
@@ -724,6 +893,7 @@ fn construct(which: usize, seq: &[u32], ont: Option<&Ontology>) -> Result<HpoGro
         1 => HpoGroup::from(seq.to_vec()),
         2 => HpoGroup::from(seq.iter().map(|x| tid(*x)).collect::<HashSet<HpoTermId>>()),
         3 => seq.iter().map(|x| tid(*x)).collect::<HpoGroup>(),
+        5..=8 => collect_through(seq.iter().map(|x| tid(*x)).collect::<Vec<HpoTermId>>(), which - 5),
         _ => {
             let ont = ont.expect("harness: FromIterator<HpoTerm> needs an ontology");
             at("Ontology::hpo");
@@ -735,29 +905,58 @@ fn construct(which: usize, seq: &[u32], ont: Option<&Ontology>) -> Result<HpoGro
                 }
             }
             at(CONSTRUCTORS[which]);
-            terms.into_iter().collect::<HpoGroup>()
+            if which == 4 {
+                terms.into_iter().collect::<HpoGroup>()
+            } else {
+                collect_through(terms, which - 9)
+            }
         }
     })
 }
 
-fn rust_constructor(which: usize, seq: &[u32]) -> String {
-    let lit: Vec<String> = seq.iter().map(|x| format!("{x}u32")).collect();
-    let lit = lit.join(", ");
+/// `input` is Rust source evaluating to the `Vec<u32>` that is fed in.
+fn rust_constructor(which: usize, input: &str) -> String {
     let head = "use hpo::annotations::AnnotationId;\nuse hpo::term::HpoGroup;\nuse hpo::HpoTermId;\n";
     let body = match which {
-        0 => format!("let g = HpoGroup::from(vec![{lit}].into_iter().map(HpoTermId::from_u32).collect::<Vec<HpoTermId>>());\n"),
-        1 => format!("let g = HpoGroup::from(vec![{lit}]);\n"),
-        2 => format!("let g = HpoGroup::from(vec![{lit}].into_iter().map(HpoTermId::from_u32).collect::<std::collections::HashSet<HpoTermId>>());\n"),
-        3 => format!("let g: HpoGroup = vec![{lit}].into_iter().map(HpoTermId::from_u32).collect();\n"),
-        _ => format!("// ont: any ontology holding these terms\nlet g: HpoGroup = vec![{lit}].into_iter().map(|i| ont.hpo(i).unwrap()).collect();\n"),
+        0 => format!("let g = HpoGroup::from({input}.into_iter().map(HpoTermId::from_u32).collect::<Vec<HpoTermId>>());\n"),
+        1 => format!("let g = HpoGroup::from({input});\n"),
+        2 => format!("let g = HpoGroup::from({input}.into_iter().map(HpoTermId::from_u32).collect::<std::collections::HashSet<HpoTermId>>());\n"),
+        3 => format!("let g: HpoGroup = {input}.into_iter().map(HpoTermId::from_u32).collect();\n"),
+        4 => format!("// ont: any ontology holding these terms\nlet g: HpoGroup = {input}.into_iter().map(|i| ont.hpo(i).unwrap()).collect();\n"),
+        5..=8 => format!("let g: HpoGroup = {input}.into_iter().map(HpoTermId::from_u32){}.collect();\n", ADAPTOR_SRC[which - 5]),
+        _ => format!("// ont: any ontology holding these terms\nlet g: HpoGroup = {input}.into_iter().map(|i| ont.hpo(i).unwrap()){}.collect();\n", ADAPTOR_SRC[which - 9]),
     };
     format!("{head}{body}println!(\"{{:?}} len={{}}\", g.iter().map(|i| i.as_u32()).collect::<Vec<_>>(), g.len());\n")
 }
 
-/// All constructors on one sequence (FromIterator<HpoTerm> only when an ontology holding the ids is given).
+fn clip(s: &str, max: usize) -> String {
+    if s.len() <= max {
+        s.to_string()
+    } else {
+        let mut cut = max;
+        while !s.is_char_boundary(cut) {
+            cut -= 1;
+        }
+        format!("{}... <{} bytes>", &s[..cut], s.len())
+    }
+}
+
+fn vec_literal(seq: &[u32]) -> String {
+    let lit: Vec<String> = seq.iter().map(|x| format!("{x}u32")).collect();
+    format!("vec![{}]", lit.join(", "))
+}
+
+/// All applicable constructors on one sequence (FromIterator<HpoTerm> only when an ontology holding the ids is given).
 fn constructor_case(ctx: &mut Ctx, seq: &[u32], ont: Option<&Ontology>, probes: &[u32], futures: &[u32]) {
+    constructor_case_ext(ctx, seq, ont, probes, futures, false, None)
+}
+
+/// `adaptors`: also the adaptor-fed FromIterator variants; `input_src`: (description, Rust source of the
+/// input vector) for inputs too long to be written out.
+fn constructor_case_ext(ctx: &mut Ctx, seq: &[u32], ont: Option<&Ontology>, probes: &[u32], futures: &[u32], adaptors: bool, input_src: Option<(&str, &str)>) {
     let expect: BTreeSet<u32> = seq.iter().copied().collect();
-    let n = if ont.is_some() { CONSTRUCTORS.len() } else { CONSTRUCTORS.len() - 1 };
+    let which_all = constructors_for(ont.is_some(), adaptors);
+    let n = which_all.len();
     ctx.state();
     ctx.transitions((n * (seq.len() + futures.len())) as u64);
     ctx.execs(n as u64);
@@ -765,12 +964,15 @@ fn constructor_case(ctx: &mut Ctx, seq: &[u32], ont: Option<&Ontology>, probes: 
     if !strictly_ascending(seq) {
         ctx.nontrivial();
     }
-    for which in 0..n {
+    for which in which_all {
         let r = guard(|| -> Result<(), Diff> {
             let g = construct(which, seq, ont)?;
             check_group(&g, &expect, probes, futures, CONSTRUCTORS[which])
         });
-        let detail = |what: String| json!({"constructor": CONSTRUCTORS[which], "input": seq, "expected_content": expect, "difference": what, "rust": rust_constructor(which, seq)});
+        let detail = |what: String| match input_src {
+            Some((descr, src)) if seq.len() > 1200 => json!({"constructor": CONSTRUCTORS[which], "input": descr, "input_head": &seq[..12], "entries": seq.len(), "distinct_ids": expect.len(), "difference": clip(&what, 600), "rust": rust_constructor(which, src)}),
+            _ => json!({"constructor": CONSTRUCTORS[which], "input": seq, "expected_content": expect, "difference": what, "rust": rust_constructor(which, &vec_literal(seq))}),
+        };
         match r {
             Ok(Ok(())) => {}
             Ok(Err((site, sig, what))) => ctx.violation(&site, &sig, detail(what)),
@@ -791,7 +993,7 @@ fn constructors(ctx: &mut Ctx) {
     let total: usize = (0..=max_len).map(|l| 4usize.pow(l as u32)).sum();
     ctx.space(
         "constructors/all-sequences",
-        &format!("all {total} sequences of length 0..={max_len} over the ids {ids:?} (duplicates included) x 5 constructors (From<Vec<HpoTermId>>, From<Vec<u32>>, From<HashSet<HpoTermId>>, FromIterator<HpoTermId>, FromIterator<HpoTerm> over an ontology of these 4 isolated terms); result fully observed and then used as a live set (every possible next insert)"),
+        &format!("all {total} sequences of length 0..={max_len} over the ids {ids:?} (duplicates included) x 13 constructors (From<Vec<HpoTermId>>, From<Vec<u32>>, From<HashSet<HpoTermId>>, FromIterator<HpoTermId>, FromIterator<HpoTerm> over an ontology of these 4 isolated terms, and both FromIterator impls fed through filter / flatten / iter::from_fn / chain, i.e. iterators without an exact size_hint); result fully observed and then used as a live set (every possible next insert)"),
     );
     let mut ont: Option<Ontology> = None;
     let mut probes: Vec<u32> = ids.to_vec();
@@ -803,7 +1005,7 @@ fn constructors(ctx: &mut Ctx) {
             }
             let ont = ont.get_or_insert_with(|| isolated_ontology(ids));
             let seq: Vec<u32> = digits(k, len, 4).iter().map(|i| ids[*i]).collect();
-            constructor_case(ctx, &seq, Some(ont), &probes, &probes);
+            constructor_case_ext(ctx, &seq, Some(ont), &probes, &probes, true, None);
             if len == 3 {
                 ctx.sample(|| json!({"input": seq, "constructors": CONSTRUCTORS, "expected_content": seq.iter().copied().collect::<BTreeSet<u32>>()}));
             }
@@ -814,7 +1016,7 @@ fn constructors(ctx: &mut Ctx) {
     sizes.push(64);
     ctx.space(
         "constructors/large",
-        &format!("sizes {sizes:?} (inline storage holds 30) x input orders {ORDERS:?} of the ids 1..=size x the same 5 constructors; then inputs of {FAR_ENTRY_COUNTS:?} entries over the ids 1..=64 with duplicates at NON-adjacent positions: ascending ++ ascending prefix and ascending ++ descending (distinct counts around 30 and around the entry count), two base orders with every 2nd/3rd/7th id repeated at distance 3, and vectors of 31 and 35 entries with exactly one duplicate at positions (0,last), (0,2), (middle,last) in ascending / even-then-odd / descending order; distinct-id counts both <= 30 and > 30"),
+        &format!("sizes {sizes:?} (inline storage holds 30) x input orders {ORDERS:?} of the ids 1..=size x the same 13 constructors; then inputs of {FAR_ENTRY_COUNTS:?} entries over the ids 1..=64 with duplicates at NON-adjacent positions: ascending ++ ascending prefix and ascending ++ descending (distinct counts around 30 and around the entry count), two base orders with every 2nd/3rd/7th id repeated at distance 3, and vectors of 31 and 35 entries with exactly one duplicate at positions (0,last), (0,2), (middle,last) in ascending / even-then-odd / descending order; distinct-id counts both <= 30 and > 30"),
     );
     let all: Vec<u32> = (1..=64).collect();
     let mut big: Option<Ontology> = None;
@@ -828,7 +1030,7 @@ fn constructors(ctx: &mut Ctx) {
             let mut probes: Vec<u32> = (0..=n as u32 + 1).collect();
             probes.push(u32::MAX);
             let futures = [0, 1, n as u32 / 2, n as u32, n as u32 + 1, u32::MAX];
-            constructor_case(ctx, &seq, Some(big), &probes, &futures);
+            constructor_case_ext(ctx, &seq, Some(big), &probes, &futures, true, None);
             ctx.sample(|| json!({"size": n, "order": ORDERS[o], "input_head": &seq[..seq.len().min(6)]}));
         }
     }
@@ -844,9 +1046,92 @@ fn constructors(ctx: &mut Ctx) {
         let mut probes: Vec<u32> = (0..=top + 1).collect();
         probes.push(u32::MAX);
         let futures = [0, 1, top / 2, top, top + 1, u32::MAX];
-        constructor_case(ctx, &seq, Some(big), &probes, &futures);
+        constructor_case_ext(ctx, &seq, Some(big), &probes, &futures, true, None);
         ctx.bump(if distinct.len() <= 30 { "far_duplicate_inputs_with_at_most_30_distinct_ids" } else { "far_duplicate_inputs_with_more_than_30_distinct_ids" }, 1);
         ctx.sample(|| json!({"pattern": what, "entries": seq.len(), "distinct_ids": distinct.len(), "input": seq}));
+    }
+}
+
+const MANY_SHAPES: [&str; 4] = ["descending", "ascending ++ ascending prefix (1/8 of the entries repeat the first ids)", "shuffled with distant duplicates (LCG seed 7)", "even-then-odd, then every 7th id again"];
+
+/// (ids, Rust source of the vector) for `e` entries of shape `kind`; id of index i is `base + step*i`.
+fn many_input(kind: usize, e: usize, base: u32, step: u32) -> (Vec<u32>, String) {
+    let id = |i: usize| base + step * i as u32;
+    match kind {
+        0 => ((0..e).rev().map(id).collect(), format!("(0..{e}u32).rev().map(|i| {base} + {step} * i).collect::<Vec<u32>>()")),
+        1 => {
+            let d = e - e / 8;
+            ((0..d).chain(0..e - d).map(id).collect(), format!("(0..{d}u32).chain(0..{}u32).map(|i| {base} + {step} * i).collect::<Vec<u32>>()", e - d))
+        }
+        2 => {
+            // d distinct ids in shuffled order, then e-d of them once more at shuffled positions
+            let d = e - e / 5;
+            let mut rng = Lcg(7 + e as u64);
+            let mut v: Vec<usize> = (0..d).collect();
+            rng.shuffle(&mut v);
+            for _ in d..e {
+                let dup = v[rng.below(d)];
+                let pos = rng.below(v.len() + 1);
+                v.insert(pos, dup);
+            }
+            (v.into_iter().map(id).collect(), "/* the shuffled input listed in this record */".to_string())
+        }
+        _ => {
+            let d = e - e / 8;
+            let mut v: Vec<usize> = order(3, d);
+            let mut k = 0;
+            while v.len() < e {
+                v.push((7 * k) % d);
+                k += 1;
+            }
+            (v.into_iter().map(id).collect(), "/* the input listed in this record */".to_string())
+        }
+    }
+}
+
+/// Constructor inputs far beyond the inline limit and beyond every 7/8-bit or 1k threshold.
+fn constructors_many(ctx: &mut Ctx) {
+    let counts = [127usize, 128, 129, 255, 256, 257, 1000];
+    ctx.space(
+        "constructors/many-entries",
+        &format!("entry counts {counts:?} x shapes {MANY_SHAPES:?} over the ids 1..=e (e <= 257: all 13 constructors incl. FromIterator<HpoTerm> over an ontology of 310 isolated terms) resp. 5 + 3i (e = 1000: the 4 id constructors + their 4 adaptor-fed variants); plus 70000 entries (ids 11 + 2i) x the 4 id constructors in the shape 'ascending ++ ascending prefix' (thorough: also 'descending'); result fully observed against the set of distinct ids and used as a live set"),
+    );
+    let all: Vec<u32> = (1..=310).collect();
+    let mut ont: Option<Ontology> = None;
+    for &e in &counts {
+        for kind in 0..MANY_SHAPES.len() {
+            if !ctx.take() {
+                continue;
+            }
+            let with_terms = e <= 257;
+            let (base, step) = if with_terms { (1, 1) } else { (5, 3) };
+            let (seq, src) = many_input(kind, e, base, step);
+            assert!(seq.len() == e, "harness: many_input length");
+            let distinct: BTreeSet<u32> = seq.iter().copied().collect();
+            let mut probes: Vec<u32> = distinct.iter().copied().collect();
+            let (lo, hi) = (probes[0], probes[probes.len() - 1]);
+            probes.extend([0, lo - 1, hi + 1, hi + 2, u32::MAX]);
+            probes.sort_unstable();
+            probes.dedup();
+            let futures = [lo - 1, lo, probes[probes.len() / 2], hi, hi + 1, u32::MAX];
+            let o = if with_terms { Some(&*ont.get_or_insert_with(|| isolated_ontology(&all))) } else { None };
+            constructor_case_ext(ctx, &seq, o, &probes, &futures, true, Some((MANY_SHAPES[kind], &src)));
+            ctx.sample(|| json!({"entries": e, "shape": MANY_SHAPES[kind], "distinct_ids": distinct.len(), "input_head": &seq[..8]}));
+        }
+    }
+    let kinds: &[usize] = if ctx.tier.thorough() { &[1, 0] } else { &[1] };
+    for &kind in kinds {
+        if !ctx.take() {
+            continue;
+        }
+        let e = 70_000;
+        let (seq, src) = many_input(kind, e, 11, 2);
+        let distinct: BTreeSet<u32> = seq.iter().copied().collect();
+        let mut probes: Vec<u32> = distinct.iter().copied().collect();
+        let hi = probes[probes.len() - 1];
+        probes.extend([0, 10, 12, hi + 1, u32::MAX]);
+        probes.sort_unstable();
+        constructor_case_ext(ctx, &seq, None, &probes, &[10, hi, hi + 1], false, Some((MANY_SHAPES[kind], &src)));
     }
 }
 
@@ -1043,10 +1328,13 @@ fn pair_case(ctx: &mut Ctx, a: &[u32], b: &[u32], variants: &[(usize, usize)], p
                 if let Some(d) = diff(&pb, &Snap::expected(b, probes), "HpoGroup (operand construction)", probes) {
                     return Err(d);
                 }
-                let res = apply(form, &ga, &gb);
+                let mut res = apply(form, &ga, &gb);
                 check_group(&res, expect, probes, futures, FORMS[form].1)?;
                 if Snap::of(&ga, probes) != pa || Snap::of(&gb, probes) != pb {
                     return Err((FORMS[form].1.into(), "an operand observed after the operation differs from before".into(), String::new()));
+                }
+                if (va, vb) == variants[0] {
+                    use_result_further(&mut res, expect, &ga, a, probes, futures, FORMS[form].0)?;
                 }
                 Ok(())
             });
@@ -1062,6 +1350,43 @@ fn pair_case(ctx: &mut Ctx, a: &[u32], b: &[u32], variants: &[(usize, usize)], p
         }
     }
     n
+}
+
+/// The result of an operator is itself an operand and a live set: `res | c`, `res & c` for two third
+/// operands (every second probe id; the left operand), then the futures are inserted into the ORIGINAL
+/// result (not a clone) one after the other.
+fn use_result_further(res: &mut HpoGroup, expect: &BTreeSet<u32>, ga: &HpoGroup, a: &[u32], probes: &[u32], futures: &[u32], expr: &str) -> Result<(), Diff> {
+    let c1: Vec<u32> = probes.iter().step_by(2).copied().collect();
+    let g1 = build_operand(&c1, 2);
+    for (c, gc, cname) in [(&c1[..], &g1, "every second probe id"), (a, ga, "the left operand a")] {
+        let sc: BTreeSet<u32> = c.iter().copied().collect();
+        let eu: Vec<u32> = expect.union(&sc).copied().collect();
+        let ei: Vec<u32> = expect.intersection(&sc).copied().collect();
+        at(FORMS[0].1);
+        let u = &*res | gc;
+        if let Some((s, sig, w)) = diff(&Snap::of(&u, probes), &Snap::expected(&eu, probes), FORMS[0].1, probes) {
+            return Err((s, sig, format!("({expr}) | c with c = {cname} {c:?}: {w}")));
+        }
+        at(FORMS[3].1);
+        let i = &*res & gc;
+        if let Some((s, sig, w)) = diff(&Snap::of(&i, probes), &Snap::expected(&ei, probes), FORMS[3].1, probes) {
+            return Err((s, sig, format!("({expr}) & c with c = {cname} {c:?}: {w}")));
+        }
+    }
+    let mut model = expect.clone();
+    for &y in futures {
+        at("HpoGroup::insert");
+        let ret = res.insert(y);
+        let fresh = model.insert(y);
+        if ret != fresh {
+            return Err(("HpoGroup::insert".into(), SIG_INSERT_RET.into(), format!("on the result of {expr} itself: insert({y}) returned {ret}, expected {fresh}")));
+        }
+    }
+    let ms: Vec<u32> = model.into_iter().collect();
+    if let Some((s, sig, w)) = diff(&Snap::of(res, probes), &Snap::expected(&ms, probes), "HpoGroup::insert", probes) {
+        return Err((s, sig, format!("after inserting {futures:?} into the result of {expr} itself: {w}")));
+    }
+    Ok(())
 }
 
 /// The three (set, id) forms. Returns the number of operator executions.
@@ -1249,6 +1574,146 @@ fn algebra_large(ctx: &mut Ctx) {
                     ctx.sample(|| json!({"size_a": na, "size_b": nb, "overlap": OVERLAPS[kind], "a_head": &a[..4], "b_head": &b[..4], "operator_executions": n}));
                 }
             }
+        }
+    }
+}
+
+const IRREGULAR: [&str; 4] = ["multiples of 3 vs multiples of 5", "same stride, b shifted by a third of a", "nested (smaller spread inside larger)", "two LCG-drawn subsets of 0..3*max (seed = sizes)"];
+
+fn irregular_sets(na: usize, nb: usize, kind: usize) -> (Vec<u32>, Vec<u32>) {
+    match kind {
+        0 => ((0..na as u32).map(|i| 3 * i).collect(), (0..nb as u32).map(|j| 5 * j).collect()),
+        1 => ((0..na as u32).map(|i| 7 + 2 * i).collect(), (0..nb as u32).map(|j| 7 + 2 * (j + na as u32 / 3)).collect()),
+        2 => grid_sets(na, nb, 3),
+        _ => {
+            let universe: Vec<u32> = (0..3 * na.max(nb) as u32).collect();
+            let mut rng = Lcg(1000 * na as u64 + nb as u64);
+            (rng.draw(&universe, na), rng.draw(&universe, nb))
+        }
+    }
+}
+
+/// G3: two large operands with irregular overlap.
+fn algebra_large_irregular(ctx: &mut Ctx) {
+    let sizes = [64usize, 65, 128, 257];
+    ctx.space(
+        "algebra/large-irregular",
+        &format!("|a|,|b| in {sizes:?} x overlap {IRREGULAR:?} x 6 operator forms x 2 operand constructions; result fully observed, used as a live set, fed into one more `| c` / `& c` and inserted into directly"),
+    );
+    let variants = [(0, 1), (2, 3)];
+    for kind in 0..IRREGULAR.len() {
+        for &na in &sizes {
+            for &nb in &sizes {
+                if !ctx.take() {
+                    continue;
+                }
+                let (a, b) = irregular_sets(na, nb, kind);
+                assert!(strictly_ascending(&a) && strictly_ascending(&b) && a.len() == na && b.len() == nb, "harness: irregular_sets");
+                let mut probes: Vec<u32> = a.iter().chain(b.iter()).copied().collect();
+                let hi = probes.iter().max().copied().unwrap();
+                probes.extend([0, 1, 2, hi + 1, u32::MAX]);
+                probes.sort_unstable();
+                probes.dedup();
+                let futures = [0, 1, a[na / 2], a[na / 2] + 1, b[nb / 2], hi, hi + 1];
+                let mut fp = Fp::new();
+                let n = pair_case(ctx, &a, &b, &variants, &probes, &futures, &mut fp);
+                ctx.outcome(fp.0);
+                ctx.state();
+                ctx.nontrivial();
+                ctx.transitions(n * (1 + futures.len() as u64));
+                ctx.execs(n);
+                ctx.validateds(n);
+                if na == 128 && nb == 65 {
+                    ctx.sample(|| json!({"size_a": na, "size_b": nb, "overlap": IRREGULAR[kind], "a_head": &a[..6], "b_head": &b[..6]}));
+                }
+            }
+        }
+    }
+}
+
+/// G4: mid-size operands with arbitrary interleaving.
+fn algebra_mid_irregular(ctx: &mut Ctx) {
+    let n_pairs = 2000;
+    ctx.space(
+        "algebra/mid-irregular",
+        &format!("a fixed family of {n_pairs} pairs (a, b) drawn by a deterministic LCG (seed = pair number): sizes 7..=28 each, subsets of the 40 ids 100 + 3i; 6 operator forms, operands built by insert resp. From<Vec<u32>>; every result observed completely and the forms compared with each other; one case = 50 pairs"),
+    );
+    let universe: Vec<u32> = (0..40u32).map(|i| 100 + 3 * i).collect();
+    let mut probes = universe.clone();
+    probes.extend([0, 99, 101, 218, u32::MAX]);
+    probes.sort_unstable();
+    for block in 0..n_pairs / 50 {
+        if !ctx.take() {
+            continue;
+        }
+        let mut n = 0;
+        for k in block * 50..(block + 1) * 50 {
+            let mut rng = Lcg(0xC12 + k as u64);
+            let (na, nb) = (7 + rng.below(22), 7 + rng.below(22));
+            let (a, b) = (rng.draw(&universe, na), rng.draw(&universe, nb));
+            let mut fp = Fp::new();
+            n += asym_ops(ctx, &a, &b, k % 2, 2 + k % 2, &probes, &mut fp);
+            ctx.outcome(fp.0);
+        }
+        ctx.states(50);
+        ctx.nontrivials(50);
+        ctx.transitions(n);
+        ctx.execs(n);
+        ctx.validateds(n);
+        if block == 0 {
+            let mut rng = Lcg(0xC12);
+            let (na, nb) = (7 + rng.below(22), 7 + rng.below(22));
+            ctx.sample(|| json!({"pair": 0, "a": rng.draw(&universe, na), "b": rng.draw(&universe, nb)}));
+        }
+    }
+
+    if !ctx.tier.thorough() {
+        return;
+    }
+    // thorough: every pair of subsets of a 10-id universe for the two by-reference operators
+    let u10: Vec<u32> = vec![0, 3, 4, 9, 10, 11, 50, 51, 4000, u32::MAX];
+    let subsets = subsets_simplest_first(10);
+    ctx.space(
+        "algebra/10-universe-pairs",
+        &format!("all 1024 x 1024 ordered pairs of subsets of {u10:?} for `&a | &b` and `&a & &b`; every result observed completely (exact ascending content, len, get, contains for all 10 ids, as_bytes); one case = one left operand"),
+    );
+    for &ma in &subsets {
+        if !ctx.take() {
+            continue;
+        }
+        let a = pick(&u10, ma);
+        let mut first: Option<(Vec<u32>, usize, Diff)> = None;
+        let res = guard(|| {
+            let ga = build_operand(&a, 0);
+            for &mb in &subsets {
+                let b = pick(&u10, mb);
+                let gb = build_operand(&b, 2);
+                for form in [0usize, 3] {
+                    let e = pick(&u10, if form == 0 { ma | mb } else { ma & mb });
+                    if let Some(d) = diff(&Snap::of(&apply(form, &ga, &gb), &u10), &Snap::expected(&e, &u10), FORMS[form].1, &u10) {
+                        if first.is_none() {
+                            first = Some((b.clone(), form, d));
+                        }
+                    }
+                }
+            }
+        });
+        if let Err(msg) = res {
+            ctx.violation(at_get(), SIG_PANIC, json!({"a": a, "b": "one of the 1024 subsets", "panic": msg}));
+        }
+        if let Some((b, form, (site, sig, what))) = first {
+            ctx.violation(&site, &sig, json!({"a": a, "b": b, "expression": FORMS[form].0, "difference": what, "rust": rust_algebra(&a, 0, Some((&b, 2)), FORMS[form].0, None)}));
+        }
+        let mut fp = Fp::new();
+        fp.u(ma);
+        ctx.outcome(fp.0);
+        ctx.states(1024);
+        ctx.nontrivials(1024);
+        ctx.transitions(2048);
+        ctx.execs(2048);
+        ctx.validateds(2048);
+        if ma == 0b11 {
+            ctx.sample(|| json!({"a": a, "b": "each of the 1024 subsets", "forms": [FORMS[0].0, FORMS[3].0]}));
         }
     }
 }
@@ -1909,6 +2374,7 @@ pub fn run(ctx: &mut Ctx) {
         "any u32 is a legal id for HpoGroup (0 and u32::MAX included); the documentation states no restriction".into(),
         "HpoGroup::with_capacity: capacity is not observable; only the behaviour of the resulting empty group is checked".into(),
         "From<HashSet<HpoTermId>>: the iteration order of the std HashSet (RandomState) is not controlled; the result must not depend on it".into(),
+        "the families named 'LCG' (shuffled constructor inputs, irregular operand pairs) are fixed lists generated by a deterministic generator with constant seeds; they are the same in every run and process and are enumerated completely".into(),
         "operands of the operators are groups built through the public API (insert / From / FromIterator), never hand-crafted unsorted storage".into(),
         "HpoTerm::all_union_ancestor_ids / all_union_ancestors: the documentation contradicts itself (prose: self and other included; doc-test: not included); exactly these two readings are accepted, the exclusive one is reported as the known finding".into(),
         "ancestor queries: acyclic ontologies; built with Builder + build_minimal, and (binary-flags, chain300) also decoded from a binary v3 file written by the independent encoder, where terms may be flagged obsolete / replaced - the property quantifies over all terms of all ontologies and its set algebra does not mention flags, so flagged terms count like any other; both terms belong to the same ontology".into(),
@@ -1919,9 +2385,13 @@ pub fn run(ctx: &mut Ctx) {
     histories(ctx);
     bfs(ctx);
     inline_limit(ctx);
+    large_live(ctx);
     constructors(ctx);
+    constructors_many(ctx);
     algebra_small(ctx);
     algebra_large(ctx);
+    algebra_large_irregular(ctx);
+    algebra_mid_irregular(ctx);
     algebra_asymmetric(ctx);
     constructors_asymmetric(ctx);
     let mut seen: BTreeSet<String> = BTreeSet::new();
